@@ -1642,6 +1642,130 @@ def two_handle_sweep(ctx):
             pass
     return fails, evals
 
+# ---- role links: last assignment wins, whatever the target looks like --------------------------------------------
+
+
+def role_sweep(ctx):
+    """every role link (metadata of every kind, Section.link, MultiTag.positions / extents, Feature.data) is assigned
+    a sequence of targets - among them targets that are 'empty' (a section without properties, an array / frame of
+    length 0: objects whose len() is 0 and whose truth value is therefore False) and None where allowed: after every
+    accepted assignment the link leads to the object assigned last (None clears), now and after reopening. Then:
+    assigning the value an attribute currently shows (ticks of a linked range dimension = the ticks it reports) must
+    have the full effect of the assignment (the labels of a linked set dimension cannot be assigned at all)."""
+    fails, evals = [], 0
+    path = ctx.tmpfile("c02-roles.nix")
+    f = nixio.File.open(path, nixio.FileMode.Overwrite)
+    try:
+        from collections import OrderedDict
+        b = f.create_block("b", "t")
+        full = b.create_data_array("full", "t", data=[1.0, 2.0, 3.0])
+        empty = b.create_data_array("empty", "t", dtype=nixio.DataType.Double, shape=(0,))
+        other = b.create_data_array("other", "t", data=[4.0, 5.0])
+        fr_full = b.create_data_frame("frfull", "t", col_dict=OrderedDict([("x", int)]), data=[(1,), (2,)])
+        fr_empty = b.create_data_frame("frempty", "t", col_dict=OrderedDict([("x", int)]))
+        g = b.create_group("g", "t")
+        tg = b.create_tag("tg", "t", [0.0])
+        mt = b.create_multi_tag("mt", "t", positions=full)
+        ft = tg.create_feature(full, "untagged")
+        src = b.create_source("s", "t")
+        s_full = f.create_section("sfull", "t")
+        s_full.create_property("p", [1])
+        s_empty = f.create_section("sempty", "t")
+        s_empty2 = f.create_section("sempty2", "t")
+        s_full.create_section("sub", "t")
+        last = {}
+
+        def assign(desc, get_owner, attr, target, tname):
+            nonlocal evals
+            evals += 1
+            try:
+                setattr(get_owner(f), attr, target)
+            except Exception:
+                return          # refused: C12's subject
+            want = None if target is None else target.id
+            for how, owner in (("the same session", get_owner(f)),):
+                got = getattr(owner, attr)
+                gid = None if got is None else got.id
+                if gid != want:
+                    fails.append(Failure("%s.%s = <%s> does not lead to the object assigned last" % (desc, attr, tname),
+                                         {"scenario": "role-sweep", "owner": desc, "attribute": attr,
+                                          "assigned": tname}, tname if gid == want else (None if got is None else getattr(got, "name", gid)),
+                                         tname, "last-write"))
+            last[(desc, attr)] = (get_owner, want, tname)
+
+        B = lambda ff: ff.blocks["b"]
+        owners_md = [("block", B), ("group", lambda ff: B(ff).groups["g"]), ("array", lambda ff: B(ff).data_arrays["full"]),
+                     ("frame", lambda ff: B(ff).data_frames["frfull"]), ("tag", lambda ff: B(ff).tags["tg"]),
+                     ("multi_tag", lambda ff: B(ff).multi_tags["mt"]), ("source", lambda ff: B(ff).sources["s"])]
+        sec_seq = [(s_full, "section with a property"), (s_empty, "section without properties"),
+                   (s_full, "section with a property"), (s_empty2, "another section without properties"),
+                   (None, "None"), (s_empty, "section without properties")]
+        for desc, get in owners_md:
+            for tgt, tname in sec_seq:
+                if tgt is None:
+                    evals += 1
+                    try:
+                        delattr(get(f), "metadata")
+                        got = get(f).metadata
+                        if got is not None:
+                            fails.append(Failure("del %s.metadata leaves a metadata link" % desc,
+                                                 {"scenario": "role-sweep", "owner": desc}, got.name, None, "last-write"))
+                        last[(desc, "metadata")] = (get, None, "None")
+                    except Exception:
+                        pass
+                else:
+                    assign(desc, get, "metadata", tgt, tname)
+        for tgt, tname in sec_seq:
+            assign("section", lambda ff: ff.sections["sempty2"] if False else ff.sections["sfull"].sections["sub"], "link", tgt, tname)
+        arr_seq = [(full, "array of length 3"), (empty, "array of length 0"), (other, "array of length 2"),
+                   (empty, "array of length 0"), (full, "array of length 3")]
+        for tgt, tname in arr_seq:
+            assign("multi_tag", lambda ff: B(ff).multi_tags["mt"], "positions", tgt, tname)
+        for tgt, tname in arr_seq + [(None, "None"), (empty, "array of length 0")]:
+            assign("multi_tag", lambda ff: B(ff).multi_tags["mt"], "extents", tgt, tname)
+        for tgt, tname in arr_seq + [(fr_full, "frame with rows"), (fr_empty, "frame without rows"), (other, "array of length 2")]:
+            assign("feature", lambda ff: B(ff).tags["tg"].features[0], "data", tgt, tname)
+
+        # assigning what is currently shown: ticks of a linked range dimension, labels of a linked set dimension
+        host = b.create_data_array("host", "t", data=np.zeros((3, 3)))
+        rd = host.append_range_dimension()
+        rd.link_data_array(full, [-1])
+        evals += 1
+        shown = tuple(rd.ticks)
+        rd.ticks = list(shown)
+        rd2 = f.blocks["b"].data_arrays["host"].dimensions[0]
+        full.write_direct(np.array([10.0, 20.0, 30.0]))
+        st = {"has_link": bool(rd2.has_link), "ticks": [float(x) for x in rd2.ticks]}
+        want = {"has_link": False, "ticks": [float(x) for x in shown]}
+        if st != want:
+            fails.append(Failure("assigning to a linked range dimension the ticks it currently reports did not replace "
+                                 "the link by explicit ticks", {"scenario": "role-sweep", "case": "ticks = current ticks"},
+                                 st, want, "last-write"))
+        full.write_direct(np.array([1.0, 2.0, 3.0]))
+        f.close()
+        f = nixio.File.open(path, nixio.FileMode.ReadOnly)
+        for (desc, attr), (get, want, tname) in last.items():
+            evals += 1
+            try:
+                got = getattr(get(f), attr)
+                gid = None if got is None else got.id
+            except Exception as e:
+                gid = "raises " + type(e).__name__
+            if gid != want:
+                fails.append(Failure("%s.%s: after close + reopen the link does not lead to the object assigned last (<%s>)"
+                                     % (desc, attr, tname), {"scenario": "role-sweep", "owner": desc, "attribute": attr},
+                                     gid, want, "last-write"))
+    finally:
+        try:
+            f.close()
+        except Exception:
+            pass
+        try:
+            os.remove(path)
+        except OSError:
+            pass
+    return fails, evals
+
 
 def oracle(ctx, broken, hints):
     n = ctx.budget(12, 80) * (3 if broken else 1)
@@ -1654,6 +1778,9 @@ def oracle(ctx, broken, hints):
     failures += fs
     evals += e
     fs, e = two_handle_sweep(ctx)
+    failures += fs
+    evals += e
+    fs, e = role_sweep(ctx)
     failures += fs
     evals += e
     for k in range(n):
@@ -1686,6 +1813,8 @@ def replay_failure(ctx, fj):
         fs, _ = attribute_sweep(ctx)
     elif inp.get("scenario") == "two-handle-sweep":
         fs, _ = two_handle_sweep(ctx)
+    elif inp.get("scenario") == "role-sweep":
+        fs, _ = role_sweep(ctx)
     else:
         fs, _ = fixed_scenarios(ctx)
     for f in fs:
